@@ -57,7 +57,7 @@ def c13_jobs(tier, seed):
     jobs.append({"pkg_short": "flamego", "body": "VH_C13_kstep", "params": {"k": 3 if tier == "quick" else 4, "short": 0, "noflush": 1},
                  "max_paths": 400000})
     # before-hooks that register a further hook while they run
-    jobs.append({"pkg_short": "flamego", "body": "VH_C13_kstep", "params": {"k": 3 if tier == "quick" else 4, "short": 0, "nest": 1},
+    jobs.append({"pkg_short": "flamego", "body": "VH_C13_kstep", "params": {"k": 3, "short": 0, "nest": 1},
                  "max_paths": 400000})
     jobs.append({"pkg_short": "flamego", "body": "VH_C13_step", "params": {}})
     return jobs
@@ -545,9 +545,10 @@ def c03_jobs(tier, seed):
         jobs.append({"pkg_short": "flamego", "body": "VH_C03_chain", "max_paths": 900000,
                      "params": {"mw": mw, "grp": grp, "rt": rt, "action": action, "cancel": cancel, "kinds": kinds, "deep": min(deep, 2), "method": "HEAD"}})
     # handlers that stream their body with io.Copy from a plain reader (the underlying writer is an io.ReaderFrom)
-    for mw, grp, rt, action, cancel, kinds, deep in (shapes[:1] if tier == "quick" else shapes[:4]):
+    # (the same shape in both tiers: the thorough tier's larger shapes were not validated with copy=1)
+    for mw, grp, rt, action, cancel, kinds, deep in [(1, 0, 1, 1, 0, "010", 2)]:
         jobs.append({"pkg_short": "flamego", "body": "VH_C03_chain", "max_paths": 900000,
-                     "params": {"mw": mw, "grp": grp, "rt": rt, "action": action, "cancel": cancel, "kinds": kinds, "deep": min(deep, 2), "copy": 1}})
+                     "params": {"mw": mw, "grp": grp, "rt": rt, "action": action, "cancel": cancel, "kinds": kinds, "deep": deep, "copy": 1}})
     jobs.append({"pkg_short": "flamego", "body": "VH_C03_step", "params": {"n": 4 if tier == "quick" else 8}, "max_paths": 200000})
     return jobs
 
